@@ -1,0 +1,48 @@
+//! Verification hooks (cargo feature `verif-hooks`, off by default).
+//!
+//! A thread-local *fault plan* maps `(advice column index, absolute row)` to a replacement value.
+//! When a plan is installed, the real prover's witness collection overwrites the planned cells
+//! right after the circuit assigned them, so that a proof can be produced from a tampered
+//! assignment of an unmodified library circuit. A thread-local counter records how many planned
+//! cells were actually hit. Nothing here is compiled without the feature.
+
+use std::{any::Any, cell::RefCell, collections::BTreeMap};
+
+use ff::Field;
+
+thread_local! {
+    static PLAN: RefCell<Option<Box<dyn Any>>> = const { RefCell::new(None) };
+    static HITS: RefCell<Vec<(usize, usize)>> = const { RefCell::new(Vec::new()) };
+    static SEEN: RefCell<u64> = const { RefCell::new(0) };
+}
+
+/// Installs a fault plan for the current thread (replaces any previous one).
+pub fn set_fault_plan<F: Field>(plan: BTreeMap<(usize, usize), F>) {
+    PLAN.with(|p| *p.borrow_mut() = Some(Box::new(plan)));
+    HITS.with(|h| h.borrow_mut().clear());
+    SEEN.with(|s| *s.borrow_mut() = 0);
+}
+
+/// Removes the fault plan of the current thread and returns the cells that were overwritten and
+/// the number of advice assignments observed while it was installed.
+pub fn clear_fault_plan() -> (Vec<(usize, usize)>, u64) {
+    PLAN.with(|p| *p.borrow_mut() = None);
+    let hits = HITS.with(|h| std::mem::take(&mut *h.borrow_mut()));
+    let seen = SEEN.with(|s| std::mem::replace(&mut *s.borrow_mut(), 0));
+    (hits, seen)
+}
+
+/// Called by the prover's witness collection after an advice cell was assigned.
+pub(crate) fn on_prover_assign_advice<F: Field>(
+    column: usize,
+    row: usize,
+) -> Option<F> {
+    PLAN.with(|p| {
+        let p = p.borrow();
+        let plan = p.as_ref()?.downcast_ref::<BTreeMap<(usize, usize), F>>()?;
+        SEEN.with(|s| *s.borrow_mut() += 1);
+        let v = plan.get(&(column, row))?;
+        HITS.with(|h| h.borrow_mut().push((column, row)));
+        Some(*v)
+    })
+}
